@@ -433,7 +433,12 @@ pub fn parse_number(number: &Pair<Rule>) -> Result<Primitive, CompilationError> 
         },
         Rule::integer => match number.as_str().parse::<i64>() {
             Ok(number) => Ok(Primitive::Integer(number)),
-            Err(_) => err_unexpected_token!("found {}, expected number", number),
+            //a whole number too large for an integer is still a valid number, large
+            //floats print without a fractional part (1e22 is 10000000000000000000000)
+            Err(_) => match number.as_str().parse::<f64>() {
+                Ok(number) => Ok(Primitive::Number(number)),
+                Err(_) => err_unexpected_token!("found {}, expected number", number),
+            },
         },
         _ => err_unexpected_token!("Expected number but got: {}", number),
     }
